@@ -329,7 +329,10 @@ def run_check(spec, argv):
     open_classes = {k["class"]: k for k in known if k.get("status") == "open"}
     viols, diffs, errors = [], [], []
     for ln, v in zip(lines, verdicts):
-        if v is None or v.startswith("ok"):
+        if v is None:
+            errors.append((ln, "error no-verdict-from-driver"))
+            continue
+        if v.startswith("ok"):
             continue
         if v.startswith("viol"):
             cl = finding_class(v)
